@@ -1,13 +1,27 @@
 #!/usr/bin/env python3
-"""Merge the known_findings entries of a builder's copy for the given properties into /verif."""
+"""Merge the known_findings entries of a builder's copy for the given properties into /verif.
+usage: merge_findings.py <name> <props,comma> [--replace] [old_sha=new_sha ...]
+Without --replace only new entries are added; with it, entries with the same (property, id)
+are replaced by the builder's version. sha pairs rewrite the `commit` field of fixed entries."""
 import json, sys
 name = sys.argv[1]; props = sys.argv[2].split(",")
+replace = "--replace" in sys.argv
+shamap = dict(a.split("=") for a in sys.argv[3:] if "=" in a)
 mine = json.load(open("/verif/known_findings.json"))
 theirs = json.load(open("/tmp/w/%s/verif/known_findings.json" % name))
-have = {(e["property"], e["id"]) for e in mine["findings"]}
-n = 0
+index = {(e["property"], e["id"]): i for i, e in enumerate(mine["findings"])}
+added = replaced = 0
 for e in theirs["findings"]:
-    if e["property"] in props and (e["property"], e["id"]) not in have:
-        mine["findings"].append(e); n += 1
+    if e["property"] not in props:
+        continue
+    c = str(e.get("commit") or "")
+    for old, new in shamap.items():
+        if c and (old.startswith(c) or c.startswith(old)):
+            e["commit"] = new
+    k = (e["property"], e["id"])
+    if k not in index:
+        mine["findings"].append(e); added += 1
+    elif replace and mine["findings"][index[k]] != e:
+        mine["findings"][index[k]] = e; replaced += 1
 json.dump(mine, open("/verif/known_findings.json", "w"), indent=1)
-print("added", n, "findings for", props)
+print("added", added, "replaced", replaced, "for", props)
